@@ -589,8 +589,30 @@ def run(ctx):
         if var is None:
             continue
         inits = [s for s in fn.body if isinstance(s, ast.Assign) and norm(s.targets[0]) == var]
+        by_branch = False
+        if not inits:
+            # no default in front of the case split: then every branch of the split sets
+            # the angle, and a branch that applies no rotation sets it to 0
+            def leaves_of(ifst):
+                out = [ifst.body]
+                if len(ifst.orelse) == 1 and isinstance(ifst.orelse[0], ast.If):
+                    return out + leaves_of(ifst.orelse[0])
+                return out + [ifst.orelse]
+            for st_ in fn.body:
+                if isinstance(st_, ast.If) and any(isinstance(x, ast.Assign) and norm(x.targets[0]) == var
+                                                   for x in ast.walk(st_)):
+                    lv = leaves_of(st_)
+                    ok_l = bool(st_.orelse)
+                    for leaf in lv:
+                        sets = [x for b in leaf for x in ast.walk(b) if isinstance(x, ast.Assign)
+                                and norm(x.targets[0]) == var]
+                        rotates = any(isinstance(x, ast.BinOp) and isinstance(x.op, ast.MatMult)
+                                      for b in leaf for x in ast.walk(b))
+                        if not sets or (not rotates and try_fold(sets[-1].value) != 0):
+                            ok_l = False
+                    by_branch = ok_l
         ctx.ob('C20.R3', 'angle-default-zero:' + var,
-               bool(inits) and try_fold(inits[0].value) == 0,
+               by_branch or bool(inits) and try_fold(inits[0].value) == 0,
                'alignment angle %s defaults to 0 (so the undo is the identity when the '
                'alignment was skipped)' % var, mod, inits[0] if inits else fn)
 
